@@ -36,7 +36,7 @@ def correspond(ck, res, cf, hbin, tag, env=None):
 
 # level currently claimed per property (kept in step with tools/mkmanifest.py); "exploration" = the
 # property theorems are not finished yet: only the correspondence + judge decide
-LEVEL = {"C15": "exploration", "C09": "translation_validation"}
+LEVEL = {"C09": "translation_validation"}
 def level_of(pid):
     return LEVEL.get(pid, "proof")
 
